@@ -1,6 +1,8 @@
 (** * C01 property theorems — statements only; proofs live in C01/LedgerProofs.v. *)
 From Coq Require Import Reals ZArith List Bool.
 From Celer Require Import Base.Num Base.NumR C01.LedgerModel C01.LedgerProofs C01.LedgerExamples.
+From Celer Require C02.TrackInit.
+From Celer Require Import C01.InitLedger C01.InitLedgerProofs C01.InitLedgerExamples.
 Import ListNotations.
 Local Open Scope R_scope.
 
@@ -113,3 +115,64 @@ Theorem C01_example_history_nonvacuous :
      /\ sumw ex_primaries = deposited L + escaped L.
 Proof. exact example_history_nonvacuous. Qed.
 Print Assumptions C01_example_history_nonvacuous.
+
+(** ** composition with the concrete slot / initializer-stack machine of C02
+    ([C02.TrackInit.step] itself advances the machine state; the energy payload is
+    attached to the identity of each track record -- see C01/InitLedger.v) *)
+
+(** over EVERY op sequence of the concrete machine (primaries inserted, tracks
+    initialised from the stack in LIFO or charge-partitioned order, incl. the
+    in-place initialisation of the first secondary in a dying parent's slot,
+    physics outcomes computed from the energy events, extend-from-secondaries,
+    reseed): live slots + queued initializers + secondaries pending in the slots
+    + deposited + escaped = weight of the primaries inserted.  [eexec = Some]:
+    no step was a protocol misuse or threw (capacity CELER_VALIDATE). *)
+Theorem C01_machine_energy_conserved :
+  forall (cfg : TrackInit.config) (ops : list (eop R)) (E : estate R),
+  eops_ok cfg (einit cfg) ops ->
+  eexec cfg (einit cfg) ops = Some E ->
+  edep E + eesc E + slots_w (ebook E) (TrackInit.slots (es E))
+  + tracks_w (ebook E) (TrackInit.stack (es E))
+  + (if TrackInit.phase_eqb (TrackInit.ph (es E)) TrackInit.Interacted
+     then pend_w (TrackInit.slots (es E)) (epend E) else 0)
+  = inserted_w ops.
+Proof. exact machine_energy_conserved. Qed.
+Print Assumptions C01_machine_energy_conserved.
+
+Theorem C01_machine_energy_conserved_complete :
+  forall (cfg : TrackInit.config) (ops : list (eop R)) (E : estate R),
+  eops_ok cfg (einit cfg) ops ->
+  eexec cfg (einit cfg) ops = Some E ->
+  TrackInit.ph (es E) = TrackInit.Ready -> TrackInit.drained (es E) = true ->
+  inserted_w ops = edep E + eesc E.
+Proof. exact machine_energy_conserved_complete. Qed.
+Print Assumptions C01_machine_energy_conserved_complete.
+
+(** every single machine step preserves the invariant (incl. the C02 invariants) *)
+Theorem C01_machine_step_invariant :
+  forall (cfg : TrackInit.config) (E E' : estate R) (o : eop R),
+  EInv cfg E ->
+  (match o with EPhysics hs => phys_ok (ebook E) (TrackInit.slots (es E)) hs | _ => True end) ->
+  estep cfg E o = Some E' -> EInv cfg E'.
+Proof. exact EInv_estep. Qed.
+Print Assumptions C01_machine_step_invariant.
+
+(** non-vacuity: under both track orders a 20 MeV electron is absorbed, its two
+    secondaries are initialised (in place + from the stack, or both from the stack)
+    and the machine drains with deposit + escape = 20, both non-zero *)
+Theorem C01_example_machine_nonvacuous :
+  forall charge, exists E,
+    eops_ok (ex_cfg charge) (einit (ex_cfg charge)) (ex_ops [[TCut]; [TExit]])
+    /\ eexec (ex_cfg charge) (einit (ex_cfg charge)) (ex_ops [[TCut]; [TExit]]) = Some E
+    /\ TrackInit.ph (es E) = TrackInit.Ready /\ TrackInit.drained (es E) = true
+    /\ 0 < edep E /\ 0 < eesc E
+    /\ inserted_w (ex_ops [[TCut]; [TExit]]) = 20 /\ edep E + eesc E = 20.
+Proof. exact example_machine_nonvacuous. Qed.
+Print Assumptions C01_example_machine_nonvacuous.
+
+Theorem C01_example_in_place_initialisation :
+  exists E, eexec (ex_cfg false) (einit (ex_cfg false)) (firstn 4 (ex_ops [])) = Some E
+    /\ slot_tracks E = [(TrackInit.Inactive, None); (TrackInit.Initializing, Some (mkTrack 8 0 false))]
+    /\ stack_tracks E = [mkTrack 10 1 false].
+Proof. exact ex_lifo_in_place. Qed.
+Print Assumptions C01_example_in_place_initialisation.
